@@ -40,14 +40,18 @@ pub fn event_bytes(e: &Event) -> Vec<u8> {
 }
 
 pub fn file_bytes(run: u32, t0: u32, t1: u32, events: &[Event]) -> Vec<u8> {
+    file_bytes_odb(run, t0, t1, events, b"{}", b"{}")
+}
+
+/// The same with the initial and final ODB dumps given.
+pub fn file_bytes_odb(run: u32, t0: u32, t1: u32, events: &[Event], odb0: &[u8], odb1: &[u8]) -> Vec<u8> {
     let mut v = Vec::new();
     v.extend(0x8000u16.to_le_bytes());
     v.extend(0x494Du16.to_le_bytes());
     v.extend(run.to_le_bytes());
     v.extend(t0.to_le_bytes());
-    let odb = b"{}";
-    v.extend((odb.len() as u32).to_le_bytes());
-    v.extend(odb);
+    v.extend((odb0.len() as u32).to_le_bytes());
+    v.extend(odb0);
     for e in events {
         v.extend(event_bytes(e));
     }
@@ -55,8 +59,8 @@ pub fn file_bytes(run: u32, t0: u32, t1: u32, events: &[Event]) -> Vec<u8> {
     v.extend(0x494Du16.to_le_bytes());
     v.extend(run.to_le_bytes());
     v.extend(t1.to_le_bytes());
-    v.extend((odb.len() as u32).to_le_bytes());
-    v.extend(odb);
+    v.extend((odb1.len() as u32).to_le_bytes());
+    v.extend(odb1);
     v
 }
 
